@@ -57,6 +57,9 @@ func (v *Verifier) reset(fi *FuncInfo, con *Contract) {
 	if con != nil && strings.Contains(con.Mode, "math") {
 		v.eng.MathInts = true
 	}
+	if con != nil && strings.Contains(con.Mode, "hybrid") {
+		v.eng.Hybrid = true
+	}
 	v.curFI = fi
 	v.curCon = con
 	v.obls = nil
@@ -77,6 +80,8 @@ func (v *Verifier) reset(fi *FuncInfo, con *Contract) {
 	v.globalInit = map[string]Val{}
 	v.allocCount = 0
 	v.negRefs = 0
+	v.topFrame = nil
+	v.frameTargets = nil
 	v.pathSeq = map[string]int{}
 	v.siteOrdByKey = map[string]int{}
 	v.siteCount = map[string]int{}
@@ -202,6 +207,9 @@ func (v *Verifier) verifyCase(fi *FuncInfo, con *Contract, rep *FuncReport, case
 	if v.eng.MathInts {
 		rep.Mode = "math"
 	}
+	if v.eng.Hybrid {
+		rep.Mode = "hybrid"
+	}
 	v.curFn = rep.Name
 	caseTag := ""
 	if caseIdx >= 0 {
@@ -277,6 +285,10 @@ func (v *Verifier) verifyCase(fi *FuncInfo, con *Contract, rep *FuncReport, case
 		st.assume(v.asBool(v.evalSpec(fr, st, cl.Expr), fi.Decl.Pos()))
 	}
 	fr.old = st.fork()
+	v.topFrame = fr
+	if len(fi.CutErr) > 0 {
+		panic(unsupportedf(fi.Decl.Pos(), "stale contract: %s", strings.Join(fi.CutErr, "; ")))
+	}
 	entryPC := append([]*Term{}, st.pc...)
 
 	outs := v.execBlock(fr, st, fi.Decl.Body.List)
@@ -518,53 +530,64 @@ func (v *Verifier) checkFrame(fr *Frame, st *State, con *Contract) {
 	}
 	sort.Strings(keys)
 	for _, k := range keys {
-		newH := st.heaps[k]
-		oldH := old.heaps[k]
-		if oldH == nil {
-			oldH = c.decls["H0$"+k]
-		}
-		if oldH == nil || oldH == newH {
-			continue
-		}
-		r := c.Bound("r", IntSort)
-		isSlice := strings.HasPrefix(k, "S:")
-		var cov []*Term
-		cov = append(cov, c.ILt(c.Inti(0), r)) // fresh allocations
-		if isSlice {
-			j := c.Bound("j", v.eng.IdxSort())
-			for _, t := range targets {
-				if t.HeapElem == nil {
-					continue
-				}
-				match := false
-				for _, d := range v.eng.leafDescs(t.HeapElem) {
-					if sliceHeapKey(t.HeapElem, d) == k {
-						match = true
-					}
-				}
-				if match {
-					cov = append(cov, c.And(c.Eq(r, t.Ref), v.iLe(t.Lo, j), v.iLt(j, t.Hi)))
-				}
-			}
-			same := c.Eq(c.Select(c.Select(newH, r), j), c.Select(c.Select(oldH, r), j))
-			goal := c.Forall([]*Term{r, j}, c.Or(append(cov, same)...))
-			v.obligeNamed(fr, st, fmt.Sprintf("frame[heap %s]", heapKeyName(k)), pos, goal, "frame: slice elements unchanged outside the modifies clause")
-		} else {
-			for _, t := range targets {
-				if t.ObjSh == nil {
-					continue
-				}
-				for _, d := range v.eng.leafDescs(t.ObjSh) {
-					if objHeapKey(t.ObjSh, d) == k {
-						cov = append(cov, c.Eq(r, t.Ref))
-					}
-				}
-			}
-			same := c.Eq(c.Select(newH, r), c.Select(oldH, r))
-			goal := c.Forall([]*Term{r}, c.Or(append(cov, same)...))
-			v.obligeNamed(fr, st, fmt.Sprintf("frame[heap %s]", heapKeyName(k)), pos, goal, "frame: pointees unchanged outside the modifies clause")
+		if goal := v.heapFrameFormula(st, k); goal != nil {
+			v.obligeNamed(fr, st, fmt.Sprintf("frame[heap %s]", heapKeyName(k)), pos, goal, "frame: heap unchanged outside the modifies clause")
 		}
 	}
+}
+
+// heapFrameFormula: heap k in state st agrees with the function-entry heap everywhere
+// outside the function's modifies clause (resolved in the entry state) and fresh allocations.
+func (v *Verifier) heapFrameFormula(st *State, k string) *Term {
+	c := v.eng.C
+	fr := v.topFrame
+	old := fr.old
+	newH := st.heaps[k]
+	oldH := old.heaps[k]
+	if oldH == nil {
+		oldH = c.decls["H0$"+k]
+	}
+	if newH == nil || oldH == nil || oldH == newH {
+		return nil
+	}
+	if v.frameTargets == nil {
+		save := fr.resultV
+		fr.resultV = nil
+		v.frameTargets = v.resolveModifies(fr, old, v.curCon.Modifies, fr.fi.Decl.Pos())
+		fr.resultV = save
+	}
+	targets := v.frameTargets
+	r := c.Bound("r", IntSort)
+	var cov []*Term
+	cov = append(cov, c.ILt(c.Inti(0), r)) // fresh allocations
+	if strings.HasPrefix(k, "S:") {
+		j := c.Bound("j", v.eng.IdxSort())
+		for _, t := range targets {
+			if t.HeapElem == nil {
+				continue
+			}
+			for _, d := range v.eng.leafDescs(t.HeapElem) {
+				if sliceHeapKey(t.HeapElem, d) == k {
+					cov = append(cov, c.And(c.Eq(r, t.Ref), v.iLe(t.Lo, j), v.iLt(j, t.Hi)))
+					break
+				}
+			}
+		}
+		same := c.Eq(c.Select(c.Select(newH, r), j), c.Select(c.Select(oldH, r), j))
+		return c.Forall([]*Term{r, j}, c.Or(append(cov, same)...))
+	}
+	for _, t := range targets {
+		if t.ObjSh == nil {
+			continue
+		}
+		for _, d := range v.eng.leafDescs(t.ObjSh) {
+			if objHeapKey(t.ObjSh, d) == k {
+				cov = append(cov, c.Eq(r, t.Ref))
+			}
+		}
+	}
+	same := c.Eq(c.Select(newH, r), c.Select(oldH, r))
+	return c.Forall([]*Term{r}, c.Or(append(cov, same)...))
 }
 
 func heapKeyName(k string) string {
@@ -629,21 +652,30 @@ func dischargeAll(reps []*FuncReport, timeoutS int, par int, keepDir string) {
 	sem := make(chan struct{}, par)
 	for i := range jobs {
 		j := jobs[i]
+		to := timeoutS
+		if j.o.Timeout > 0 {
+			to = j.o.Timeout
+		}
+		// term construction is not concurrent: build the script here, solve in parallel
+		assume := j.o.Assume
+		if len(j.o.ctx.Axioms) > 0 {
+			assume = append(append([]*Term{}, j.o.ctx.Axioms...), assume...)
+		}
+		if extra := j.o.ctx.preInstantiate(assume, j.o.Goal, 3, 80); len(extra) > 0 {
+			assume = append(append([]*Term{}, assume...), extra...)
+			j.o.Instances = len(extra)
+		}
+		script := j.o.ctx.Script(assume, j.o.Goal, "", true)
+		j.o.Script = script
+		base := sanitize(fmt.Sprintf("%s.p%d", j.o.Name, j.o.Path))
+		if len(base) > 150 {
+			base = base[:150]
+		}
 		wg.Add(1)
 		sem <- struct{}{}
 		go func() {
 			defer wg.Done()
 			defer func() { <-sem }()
-			to := timeoutS
-			if j.o.Timeout > 0 {
-				to = j.o.Timeout
-			}
-			script := j.o.ctx.Script(j.o.Assume, j.o.Goal, "", true)
-			j.o.Script = script
-			base := sanitize(fmt.Sprintf("%s.p%d", j.o.Name, j.o.Path))
-			if len(base) > 150 {
-				base = base[:150]
-			}
 			res := Solve(script, workDir(), base, to, j.o.Solvers)
 			j.o.Result = &res
 			j.r.Solver = res.Solver
